@@ -283,11 +283,11 @@ def run(tier, V):
     build('plain')      # the hang arbiter (cached for the workers)
     os.chmod(common.tmp_root(), 0o755)
     tests = test_streams()
-    n = 12000 if tier == 'quick' else 150000
+    n = 12000 if tier == 'quick' else 80000
     base = common.seed() * 1000003
     res = pmap(run_case, [(vi, base + i, tests) for i in range(n)])
     # a slice of the same generator under MemorySanitizer (uninitialised reads; libc only, so no uninstrumented dependencies)
-    nm = 1500 if tier == 'quick' else 30000
+    nm = 1500 if tier == 'quick' else 15000
     try:
         vim = build('msan')
         res += pmap(run_case, [(vim, base + 500000 + i, tests, True) for i in range(nm)])
